@@ -272,12 +272,12 @@ func init() {
 		"doubled country prefixes are outside the variant grammar",
 	)
 	for _, r := range regimeList {
-		vh.Rapid(r.key+"_accept", 50_000, 2_400_000, genCase(r), judgeAccept)
+		vh.Rapid(r.key+"_accept", 40_000, 2_400_000, genCase(r), judgeAccept)
 	}
 	for _, r := range regimeList {
 		vh.Enum(r.key+"_edits", enumEdits(r), judgeAccept)
 	}
 	for _, r := range regimeList {
-		vh.Rapid(r.key+"_normalise", 12_000, 500_000, genNormCase(r), judgeNormalise)
+		vh.Rapid(r.key+"_normalise", 10_000, 500_000, genNormCase(r), judgeNormalise)
 	}
 }
